@@ -10,7 +10,7 @@ for p in "${PATCHES[@]}"; do
   [ -f "$p" ] || continue
   if ! git -C /repo apply --check "$(realpath "$p")" 2>/dev/null; then echo "SKIP $p (does not apply)"; continue; fi
   git -C /repo apply "$(realpath "$p")"
-  out=$(VERIF_SEED=${VERIF_SEED:-1} ./check "$PROP" 2>&1); rc=$?
+  out=$(VERIF_EVIDENCE_DIR=/verif/work/evidence-scratch VERIF_SEED=${VERIF_SEED:-1} ./check "$PROP" 2>&1); rc=$?
   git -C /repo apply -R "$(realpath "$p")"
   sig=$(echo "$out" | grep -o 'violation detail ([^)]*)' | head -1)
   if [ $rc -eq 1 ]; then echo "CAUGHT  $p  $sig"; else echo "MISSED  $p  (exit $rc) $(echo "$out" | tail -1 | cut -c1-200)"; fi
